@@ -167,7 +167,7 @@ fn quarters(r: &mut Rng, n: usize, lo: i64, hi: i64) -> Vec<f64> {
 
 pub fn gen_net(r: &mut Rng, big: bool) -> NetSpec {
     let acts = [Act::None, Act::Relu, Act::Sigmoid, Act::Softmax];
-    let lr = *r.pick(&[0.0, 0.01, 0.1, 0.5]);
+    let lr = *r.pick(&[0.0, 0.01, 0.1, 0.5, -0.1]);
     let maxs = if big { 5 } else { 4 };
     if r.chance(1, 3) {
         // one or two convolutional layers
@@ -180,9 +180,10 @@ pub fn gen_net(r: &mut Rng, big: bool) -> NetSpec {
         if r.chance(1, 2) {
             layers.push(LSpec::Conv { filters: (r.range(1, 2), c1, 1, 1), stride: (1, 1), act: acts[r.below(3)] });
         }
-        let in_dims = match r.below(4) {
+        let in_dims = match r.below(5) {
             0 => vec![d, h, w],
             1 => vec![1, d, h, w],
+            4 => vec![2, r.range(1, 2), d, h, w],
             _ => vec![r.range(2, 3), d, h, w],
         };
         NetSpec { layers, in_dims, ce: false, lr }
@@ -196,9 +197,11 @@ pub fn gen_net(r: &mut Rng, big: bool) -> NetSpec {
             let act = if last && ce { Act::Softmax } else if last { acts[r.below(4)] } else { acts[r.below(3)] };
             layers.push(LSpec::Dense { inp: sizes[i], out: sizes[i + 1], act });
         }
-        let in_dims = match r.below(4) {
+        let in_dims = match r.below(6) {
             0 => vec![sizes[0]],
             1 => vec![1, sizes[0]],
+            4 => vec![2, r.range(1, 3), sizes[0]],
+            5 => vec![2, r.range(1, 2), r.range(1, 2), sizes[0]],
             _ => vec![r.range(2, 4), sizes[0]],
         };
         NetSpec { layers, in_dims, ce, lr }
